@@ -124,7 +124,11 @@ def check(ctx):
     }
     if ctx.pid == "C01":
         from . import oplayer
-        coverage["operation_layer"] = oplayer.run(ctx)      # diagnostic (see harness/oplayer.py)
+        try:
+            coverage["operation_layer"] = oplayer.run(ctx)      # diagnostic (see harness/oplayer.py)
+        except Exception as ex:     # a diagnostic tier never decides, and never breaks, the check of C01
+            coverage["operation_layer"] = {"status": "diagnostic tier could not be completed",
+                                           "error": f"{type(ex).__name__}: {ex}"[:600]}
     return viols, coverage, ["restart checkpoint coverage is [n0,n1) of the writing Forward",
                              "the executor semantics of Executor.tla (transcribed from schedule.py "
                              "docstrings and tests/test_validity.py)"]
